@@ -133,7 +133,9 @@ func gen(t *rapid.T) Case {
 		switch rapid.SampledFrom([]string{"pin", "pin", "pin", "pin", "pinmode", "pinmode", "unpin", "unpin", "update", "update", "flush"}).Draw(t, "kind") {
 		case "pin":
 			op.Kind = "pin"
-			op.Node = g.pick(t, "node")
+			// a pin over an existing direct pin (re-pin with a new name, or recursive
+			// superseding direct) gets extra weight
+			op.Node = g.pick(t, "node", "dir")
 			op.Flag = rapid.IntRange(0, 2).Draw(t, "recursive") != 0
 			op.Name = rapid.SampledFrom(namePool).Draw(t, "name")
 		case "pinmode":
@@ -167,7 +169,14 @@ func gen(t *rapid.T) Case {
 
 		// faults
 		if op.Kind != "flush" {
-			switch rapid.IntRange(0, 11).Draw(t, "fault") {
+			f := rapid.IntRange(0, 11).Draw(t, "fault")
+			if _, isDir := g.m.Dir[op.Node]; isDir && op.Kind == "pin" && op.Flag && f >= 6 && f <= 8 {
+				// a fetching recursive pin over an existing direct pin: the fetch fails more
+				// often (block missing / cancelled at a blockstore access), so that "the
+				// failed call keeps the direct pin" is exercised
+				f -= 3
+			}
+			switch f {
 			case 0:
 				op.Cancel = "pre"
 			case 1, 2:
@@ -297,6 +306,10 @@ func run(c Case) kit.Result {
 				nt = true
 				classes["failed-op-on-pinned-cid"] = true
 			}
+			if isRecPin(op) && hasDir(pre, op.Node) && (op.Missing >= 0 || op.Cancel == "bs") {
+				// the fetch of a recursive pin over an existing direct pin failed
+				classes["err:recursive-over-direct+fetch-fault"] = true
+			}
 		} else {
 			var aerr error
 			next, aerr = pre.Apply(op)
@@ -337,9 +350,10 @@ func run(c Case) kit.Result {
 		if x != nil {
 			what := fmt.Sprintf("after op %d %v (returned %v): %v", i, op, opErr, x)
 			switch {
-			case opErr != nil && op.IsRepin(pre):
-				// F11 signature: the failing op is a re-pin of an already pinned CID and the only
-				// discrepancy is that this CID lost its pin.
+			case opErr != nil && op.IsRepin(pre) && inRepinWindow(pre, op):
+				// F11 signature: the failing op is a re-pin of an already pinned CID, the fault
+				// can strike between "old pin removed" and "new pin stored" (inRepinWindow), and
+				// the only discrepancy is that this CID lost its pin.
 				alt := pre.Clone()
 				delete(alt.Rec, op.Node)
 				delete(alt.Dir, op.Node)
@@ -399,6 +413,32 @@ func run(c Case) kit.Result {
 }
 
 func hasDir(m pinkit.Model, i int) bool { _, ok := m.Dir[i]; return ok }
+func hasRec(m pinkit.Model, i int) bool { _, ok := m.Rec[i]; return ok }
+
+func isRecPin(op pinkit.Op) bool {
+	return (op.Kind == "pin" && op.Flag) || (op.Kind == "pinmode" && op.Mode == int(ipfspin.Recursive))
+}
+
+// inRepinWindow narrows the F11 exclusion to the failures that finding explains. The pinner
+// replaces a pin by "remove the old record, then store the new one"; F11 is that an error in
+// between leaves the CID unpinned. The window is open
+//   - for a recursive pin of a CID that already is a recursive root: from the start of the
+//     call, i.e. also during the graph fetch (missing block, cancellation at a blockstore
+//     access) – the documented F11 case;
+//   - for every other re-pin (direct over direct, recursive over direct): only while the
+//     pinner rewrites its own datastore, which in this harness can only be interrupted by a
+//     cancellation at a pinner-datastore access (Cancel "ds").
+//
+// A re-pin that loses the existing pin on any other failure (a recursive pin of a directly
+// pinned CID whose fetch fails, a context cancelled before the call, ...) is not F11: it is
+// reported as a violation of "an operation that returns an error leaves all pin queries
+// unchanged".
+func inRepinWindow(pre pinkit.Model, op pinkit.Op) bool {
+	if isRecPin(op) && hasRec(pre, op.Node) {
+		return true
+	}
+	return op.Cancel == "ds"
+}
 
 func dedup(in []string) []string {
 	seen := map[string]bool{}
